@@ -8,6 +8,7 @@ CONFIG = {
     'go_env': {'CGO_ENABLED': '1'},           # the race detector needs cgo
     'overlay': [('afero_export.go', 'zz_verif_export.go'), ('mem_export.go', 'mem/zz_verif_export.go')],
     'consts_module': 'harness',
+    'extra_gen': [('harness-conc', 'conctab', 'Gen/ConcTab.v')],   # the lock table, regenerated from /repo's AST
     'coq_timeout': 2400,
     'run_timeout': {'quick': 900, 'thorough': 14400},
     'vm_sample': {'quick': 1500, 'thorough': 6000},
